@@ -35,7 +35,7 @@ CHECKS = {
         "level_text": "cache alone: every sequence of Add/Has/advance (delays on both sides of the TTL and of TTL+sweep) for both strategies; node: every history over copies of one message from three peers, a local publish with the same ID "
                       "(content-hash ID function), inline / gated asynchronous validators with 1-2 workers and time advances across TTL and sweep, both strategies; deliveries per subscription and validator invocations per ID are counted "
                       "against must-remember / must-forget intervals",
-        "level_note": "between TTL and TTL+sweep either answer is accepted (the model follows the implementation)",
+        "level_note": "between TTL and TTL+sweep either answer is accepted (the model follows the implementation). A free-running pass under the race detector (harness/racepass.go) adds alarms for unsynchronised accesses in this component; it samples schedules and decides nothing by being silent.",
         "assumptions": COMMON_ASSUME,
         "design_ref": "DESIGN.md §5 C02",
     },
@@ -188,12 +188,12 @@ CHECKS = {
     "C15": {
         "level": "model_checking", "variants": ["main", "sched"], "shards": 15, "deadline_quick": 90, "deadline_thorough": 900,
         "engine": "E-SEQ + E-SCHED",
-        "technique": "explicit-state model checking of the implementation: BFS by replay over the real rpcQueue vs. a reference model",
+        "technique": "model checking of the implementation: (a) explicit-state BFS by replay over the real rpcQueue vs. a reference model, (b) controlled-scheduler exploration (preemption-bounded, then unbounded with a state cache) of every interleaving of concurrent pushers, poppers, cancellers and closers with a linearizability oracle; plus a free-running -race pass of the same operations for unsynchronised accesses the cooperative scheduler cannot see (sampling, alarms only)",
         "rule": "state = canonical dump of the real queue + pending calls + cancelled contexts; a transition is one queue operation run to quiescence in a "
                 "synctest bubble; non-trivial = distinct canonical observation log of an execution",
         "level_text": "every sequence of queue operations up to the depth bound (pending blocking calls are part of the state) is executed on the real rpcQueue "
                       "for capacities 1..3 and compared with a reference model after every step",
-        "level_note": "trusts synctest quiescence detection and the reference model in harness/c15seq.go",
+        "level_note": "trusts synctest quiescence detection and the reference model in harness/c15seq.go. A free-running pass under the race detector (harness/racepass.go) adds alarms for unsynchronised accesses in this component; it samples schedules and decides nothing by being silent.",
         "assumptions": COMMON_ASSUME,
         "design_ref": "DESIGN.md §5 C15",
     },
@@ -253,7 +253,7 @@ CHECKS = {
         "level_text": "threads: 2-3 concurrent validator calls for one author over seqnos {0,1,2,2,MAX}, all interleavings (preemption bound 2|3, then unbounded with state caching); "
                       "node: every arrival order up to the depth bound of messages with seqnos {1,2,2',3,MAX,0}, absent / 3-byte / 9-byte encodings, several forwarders, 1-2 workers, a gated validator behind it, "
                       "and replays after the seen window expired; nonce monotonicity, accepted => committed, and no penalty for ignored replays are judged",
-        "level_note": "the metadata store is an in-memory map supplied by the harness",
+        "level_note": "the metadata store is an in-memory map supplied by the harness. A free-running pass under the race detector (harness/racepass.go) adds alarms for unsynchronised accesses in this component; it samples schedules and decides nothing by being silent.",
         "assumptions": COMMON_ASSUME,
         "design_ref": "DESIGN.md §5 C20",
     },
